@@ -1248,6 +1248,7 @@ class World:
     # -------------------------------------------------------------- dispatch
 
     def step(self, i, op):
+        env.settle()
         try:
             return self._step(i, op)
         except Violation as v:
